@@ -58,8 +58,14 @@ File(c, x) == V("file", c, x, "", <<>>)
 Sym(t)     == V("symlink", 0, FALSE, t, <<>>)
 DirV       == V("dir", 0, FALSE, "", <<>>)
 SpecialV   == V("special", 0, FALSE, "", <<>>)      \* a fifo: exists, is neither file, symlink nor directory
-Conf(m)    == V("conflict", 0, FALSE, "", m)
-MatFile(m, x) == V("file", 0, x, "", m)
+(* conflicts: m = terms <<add1, base, add2>>: content id of a file, 0 = absent, -1 = a       *)
+(* symlink (to "f"); c = id of the tree's conflict LABEL set (0 = unlabelled).  A file       *)
+(* conflict is materialised as a marker file, any other conflict as a textual description;   *)
+(* both embed the labels, so the disk value carries m and the label id as well.              *)
+ConfL(m, l) == V("conflict", l, FALSE, "", m)
+Conf(m)    == ConfL(m, 0)
+MatFile(m, l, x) == V("file", l, x, "", m)
+NonFile(m) == \E i \in 1..Len(m) : m[i] < 0
 
 FileLike(v) == v.k \in {"file", "symlink"}
 
@@ -237,8 +243,12 @@ VisitDir(s, dir) ==
 SnapValue(s, p) ==
   LET dv == Seen(s, p)  old == s.tree[p] IN
   IF dv.k = "symlink" THEN Sym(dv.t)
+  ELSE IF old.k = "conflict" /\ NonFile(old.m) THEN old
+         (* a conflict that is not between regular files is never parsed back: whatever the  *)
+         (* file contains, write_path_to_store keeps the current value                        *)
   ELSE IF dv.m # <<>> THEN
-         (* the file holds conflict markers: parsed back into the same conflict *)
+         (* the file holds conflict markers: parsed back into the same conflict (the labels  *)
+         (* belong to the tree, not to the file)                                             *)
          (IF old.k = "conflict" /\ old.m = dv.m THEN old ELSE File(-1, dv.x))
   ELSE File(dv.c, IF s.xp = "respect" THEN dv.x
                   ELSE IF old.k = "file" THEN old.x ELSE FALSE)
@@ -310,7 +320,7 @@ EntryStep(w0, xp, p, b, a) ==
       parKind == IF nondir = {} THEN "dir" ELSE w.disk[SubSeq(p, 1, MinOf(nondir))].k
       xw == IF xp = "respect" THEN a.x
             ELSE IF w.fs[p].k = "file" THEN w.fs[p].x ELSE FALSE
-      newv == IF a.k = "conflict" THEN MatFile(a.m, xw)
+      newv == IF a.k = "conflict" THEN MatFile(a.m, a.c, IF NonFile(a.m) THEN FALSE ELSE xw)
               ELSE IF a.k = "file" THEN File(a.c, xw) ELSE a
   IN
   IF /\ parKind = "symlink"
@@ -352,7 +362,11 @@ RunEntries(w, xp, seq, old, new) ==
 
 (* update(old_tree, new_tree, matcher): S = the matched paths *)
 Update(s, old, new, S) ==
-  LET changed == {p \in S : old[p] # new[p]}
+  LET (* a conflict whose terms are unchanged but whose tree got other labels is written again *)
+      changed == {p \in S : old[p] # new[p]
+                            /\ ~(Bug = "co-labels-file-only"       \* seeded bug: only file conflicts are rewritten
+                                 /\ old[p].k = "conflict" /\ new[p].k = "conflict"
+                                 /\ old[p].m = new[p].m /\ NonFile(old[p].m))}
   IN RunEntries([disk |-> s.disk, out |-> s.out, fs |-> s.fs, stats |-> NoStats, pushed |-> <<>>],
                 s.xp, FsOrder(old, new, changed), old, new)
 
@@ -394,7 +408,7 @@ DoSetSparse(s, sp) ==
 
 (* materialisation of a tree value on disk; exec bits are compared only     *)
 (* when the policy respects them                                            *)
-Mat(v) == IF v.k = "conflict" THEN MatFile(v.m, v.x) ELSE v
+Mat(v) == IF v.k = "conflict" THEN MatFile(v.m, v.c, v.x) ELSE v
 SameOnDisk(xp, dv, want) ==
   IF xp = "respect" THEN dv = want
   ELSE dv.k = want.k /\ dv.c = want.c /\ dv.t = want.t /\ dv.m = want.m
@@ -415,7 +429,9 @@ Pristine(s) == DiskIs(s.xp, s.disk, MatDisk(s.tree, s.sparse))
 RecordsDisk(s, p, v) ==
   LET dv == s.disk[p] IN
   IF dv.k = "symlink" THEN v = Sym(dv.t)
-  ELSE IF dv.m # <<>> THEN v = Conf(dv.m)              \* unedited marker file: same conflict
+  ELSE IF s.tree[p].k = "conflict" /\ NonFile(s.tree[p].m) /\ v = s.tree[p] THEN TRUE
+       (* a file-vs-symlink conflict stays until it is resolved explicitly: not C23's business *)
+  ELSE IF dv.m # <<>> THEN v.k = "conflict" /\ v.m = dv.m /\ v.c = s.tree[p].c   \* unedited marker file: same conflict
   ELSE /\ v.k = "file" /\ v.c = dv.c
        /\ v.x = (IF s.xp = "respect" THEN dv.x
                  ELSE IF s.tree[p].k = "file" THEN s.tree[p].x ELSE FALSE)
